@@ -70,4 +70,39 @@ let () =
   register "pk_pub" (function [tag; t; a; p; q; g; y; out] ->
       ((match pub_packet (n_of_int (int_of_string tag)) (nh t) (nh a) (nh p) (nh q) (nh g) (nh y) with
         | None -> "none" | Some b -> tb b), out) | _ -> bad ());
+  (* decode side: PacketDecode field for field *)
+  let ml l = String.concat "," (List.map hn l) in
+  let s2k = function
+    | S2kSimple h -> "0:" ^ hn h
+    | S2kSalted (h, salt) -> "1:" ^ hn h ^ ":" ^ tb salt
+    | S2kIterated (h, salt, c) -> "3:" ^ hn h ^ ":" ^ tb salt ^ ":" ^ hn c in
+  let fields_tok = function
+    | PfPkesk (k, a, EskRSA me) -> "1|" ^ tb k ^ "|" ^ hn a ^ "|" ^ ml [me]
+    | PfPkesk (k, a, EskElg (g, m)) -> "1|" ^ tb k ^ "|" ^ hn a ^ "|" ^ ml [g; m]
+    | PfPkesk (k, a, EskECDH (e, w)) -> "1|" ^ tb k ^ "|" ^ hn a ^ "|" ^ ml [e] ^ "|" ^ tb w
+    | PfSig4 (v, t, p, h, hs, _, l, ms) -> "2|" ^ hn v ^ "|" ^ hn t ^ "|" ^ hn p ^ "|" ^ hn h ^ "|" ^ tb hs ^ "|" ^ tb l ^ "|" ^ ml ms
+    | PfSig3 (t, tm, i, p, h, l, ms) -> "2|3|" ^ hn t ^ "|" ^ hn tm ^ "|" ^ tb i ^ "|" ^ hn p ^ "|" ^ hn h ^ "|" ^ tb l ^ "|" ^ ml ms
+    | PfSkesk4 (sk, s, e) -> "3|4|" ^ hn sk ^ "|" ^ s2k s ^ "|" ^ tb e
+    | PfSkesk5 (sk, a, s, iv, e) -> "3|5|" ^ hn sk ^ "|" ^ hn a ^ "|" ^ s2k s ^ "|" ^ tb iv ^ "|" ^ tb e
+    | PfKey (tag, v, tm, a, km) -> string_of_int (int_of_n tag) ^ "|" ^ hn v ^ "|" ^ hn tm ^ "|" ^ hn a ^ "|" ^
+        (match km with
+         | KmRSA (n, e) -> ml [n; e] | KmElg (p, g, y) -> ml [p; g; y] | KmDSA (p, q, g, y) -> ml [p; q; g; y]
+         | KmECsig (oid, pk) -> tb oid ^ ":" ^ hn pk
+         | KmECDH (oid, pk, h, sk) -> tb oid ^ ":" ^ hn pk ^ ":" ^ hn h ^ ":" ^ hn sk)
+    | PfComp (a, d) -> "8|" ^ hn a ^ "|" ^ tb d
+    | PfSed d -> "9|" ^ tb d
+    | PfLit (f, fn, tm, d) -> "11|" ^ hn f ^ "|" ^ tb fn ^ "|" ^ hn tm ^ "|" ^ tb d
+    | PfUid u -> "13|" ^ tb u
+    | PfSeipd d -> "18|" ^ tb d
+    | PfMdc h -> "19|" ^ tb h
+    | PfAead (sk, a, cs, iv, d) -> "20|" ^ hn sk ^ "|" ^ hn a ^ "|" ^ hn cs ^ "|" ^ tb iv ^ "|" ^ tb d in
+  register "pdec" (function [p; out] ->
+      ((match packet_decode (bt p) with
+        | PdOk f -> fields_tok f | PdError -> "err" | PdUnsupported -> "unsup" | PdNotModelled -> "notmodelled"), out)
+    | _ -> bad ());
+  register "penc" (function [p; out] ->
+      ((match packet_decode (bt p) with
+        | PdOk f -> if packet_of f = bt p then "same" else "differs:" ^ tb (packet_of f)
+        | _ -> "undecodable"), out)
+    | _ -> bad ());
   main ()
